@@ -566,7 +566,7 @@ pub fn suite_attack(ctx: &mut Ctx, seed: u64, n: usize, per_case: usize) {
                     continue;
                 }
                 let cc = CaseCtx { spec: &spec, op: &op, emulated: true, rflags: ResolverFlags::empty(), seed: case_seed };
-                let mut sink = Ctx { work: ctx.work.clone(), out: Box::new(std::io::sink()), no_openat2: ctx.no_openat2 };
+                let mut sink = Ctx { work: ctx.work.clone(), out: Box::new(std::io::sink()), no_openat2: ctx.no_openat2, unpriv: false };
                 let (text, _, _) = run_one(&mut sink, &cc, "probe", "attack", "", &mut no_interposer, false);
                 if text.contains("\nres ok ") {
                     found = Some((spec, op));
